@@ -688,6 +688,11 @@ func RunAs(prop string) func(*gen.Ctx) error {
 		if err != nil {
 			return err
 		}
+		if prop == "C03" {
+			if err := concurrentFirstRequests(c, gen.NewRand(c.Seed+55), meta); err != nil {
+				return err
+			}
+		}
 		if prop == "C07" || prop == "C09" {
 			if err := poolHistories(c, prop, gen.NewRand(c.Seed+99), meta); err != nil {
 				return err
